@@ -295,6 +295,79 @@ def check_bad_positions(ctx, w):
             ctx.fail(f"position:{pos}:{imp[0]}", f"word {w!r} as {pos}: library fails at {imp[0]}: {imp[1]}", payload)
 
 
+def check_module_collisions(ctx, shape):
+    """two imported types modules share a base name (`common.proto` in two sub-packages): the library must import and each
+    field must be bound to ITS package's type. `shape`: which messages of the importing file use which module."""
+    f1 = apigen.File("acme/lib/v1/shelf/common.proto", PKG + ".shelf")
+    o1 = f1.msg("Options"); o1.field("aisle", "string", 1)
+    f2 = apigen.File("acme/lib/v1/book/common.proto", PKG + ".book")
+    o2 = f2.msg("Options"); o2.field("pages", "int32", 1); o2.field("cover", "string", 2)
+    f = apigen.File("acme/lib/v1/lib.proto", PKG, deps=[f1.name, f2.name])
+    thing = f.msg("Thing"); thing.field("name", "string", 1)
+    gs = f.msg("GetShelfRequest"); gs.field("name", "string", 1)
+    gb = f.msg("GetBookRequest"); gb.field("name", "string", 1)
+    if shape == "different-messages":
+        gs.field("options", "message", 2, type_name=o1); gb.field("options", "message", 2, type_name=o2)
+    elif shape == "one-message":
+        gs.field("shelf_options", "message", 2, type_name=o1); gs.field("book_options", "message", 3, type_name=o2)
+        gb.field("options", "message", 2, type_name=o2)
+    else:       # "nested": the two uses sit in nested messages of two different top-level messages
+        n1 = gs.nested("Detail"); n1.field("options", "message", 1, type_name=o1); gs.field("detail", "message", 2, type_name=n1)
+        n2 = gb.nested("Detail"); n2.field("options", "message", 1, type_name=o2); gb.field("detail", "message", 2, type_name=n2)
+    s = f.service("Library")
+    s.method("GetShelf", gs, thing, http=("get", "/v1/{name=shelves/*}"))
+    s.method("GetBook", gb, thing, http=("get", "/v1/{name=books/*}"))
+    files = [f1, f2, f]
+    payload = {"api": "module-collision", "shape": shape}
+    ctx.count("position", "colliding module names: " + shape)
+    req = apigen.request(files, "transport=grpc,autogen-snippets=false")
+    res, err = genrun.try_generate(req)
+    if err:
+        ctx.fail("module-collision:generation", f"{shape}: generator raised {err[0]}: {err[1]}", payload)
+        return
+    api, _ = genrun.build_api(req)
+    svc = api.services[f"{PKG}.Library"]
+    loc = rpc.py_locations(api, svc)
+    codec = rpc.Codec(files)
+    sv = {"aisle": "A7"}; bv = {"pages": 321, "cover": "hard"}
+    if shape == "different-messages":
+        rq_s, rq_b = {"name": "shelves/s", "options": sv}, {"name": "books/b", "options": bv}
+    elif shape == "one-message":
+        rq_s, rq_b = {"name": "shelves/s", "shelf_options": sv, "book_options": bv}, {"name": "books/b", "options": bv}
+    else:
+        rq_s, rq_b = {"name": "shelves/s", "detail": {"options": sv}}, {"name": "books/b", "detail": {"options": bv}}
+    calls = []
+    for meth, mname, rq in (("get_shelf", "GetShelf", rq_s), ("get_book", "GetBook", rq_b)):
+        full = f"{PKG}.{mname}Request"
+        # the request is the literal dict a caller would write: built from bytes through the generated class, a field bound to
+        # the wrong package's type would survive in the unknown-field set and the wire would look right
+        calls.append({"method": meth, "mode": "request-literal-dict", "py_request": rpc.py_type(svc.methods[mname].input),
+                      "request_literal": rq, "request_b64": codec.encode_b64(full, rq), "_expect": (full, rq)})
+    root = genrun.materialise(res)
+    try:
+        out = libhost.run(root, [{"op": "import_all", "package": loc["package"]},
+                                 {"op": "grpc_session", "client": loc["client"], "transport": loc["grpc"], "async": False,
+                                  "calls": [{k: v for k, v in c.items() if not k.startswith("_")} for c in calls]}], timeout=300)
+    finally:
+        genrun.cleanup(root)
+    imp = out[0]
+    if "child_error" in imp or imp.get("errors"):
+        ctx.fail("module-collision:import", f"{shape}: library does not import: {str(imp.get('errors') or imp)[:300]}", payload)
+        return
+    sess = out[1]
+    if "calls" not in sess:
+        ctx.fail("module-collision:session", f"{shape}: session failed: {str(sess)[-300:]}", payload)
+        return
+    for c, r_ in zip(calls, sess["calls"]):
+        full, want = c["_expect"]
+        if "ok" not in r_ or len(r_["server"]) != 1:
+            ctx.fail("module-collision:wrong-type-bound", f"{shape}: {c['method']} with {want}: {r_.get('raised')}: {r_.get('msg', '')[:200]}", payload)
+            continue
+        got = codec.decode(full, r_["server"][0]["requests"][0])
+        if got != codec.normal(full, want):
+            ctx.fail("module-collision:wire", f"{shape}: {c['method']}: server decoded {got}, caller meant {want}", payload)
+
+
 def t2(ctx):
     """function-level correspondence over the whole tables"""
     from gapic.utils import to_snake_case
@@ -404,6 +477,9 @@ def run(ctx):
     for w in dict.fromkeys(sample):
         check_safe(ctx, w)
         ctx.case({"word": w, "api": "safe-positions"}, distinct_key=["safe", w])
+    for shape in ("different-messages", "one-message", "nested"):
+        check_module_collisions(ctx, shape)
+        ctx.case({"api": "module-collision", "shape": shape}, distinct_key=["modcol", shape])
     for w in (["class", "import"] if ctx.quick else [x for x in ws if x in res]):
         check_bad_positions(ctx, w)
         ctx.case({"word": w, "api": "bad-positions"}, distinct_key=["bad", w])
@@ -418,7 +494,9 @@ def replay(ctx, payload):
     import leanio
     ctx.driver = leanio.Driver()
     w = payload.get("word", "class")
-    if payload.get("api") == "safe-positions":
+    if payload.get("api") == "module-collision":
+        check_module_collisions(ctx, payload.get("shape", "different-messages"))
+    elif payload.get("api") == "safe-positions":
         check_safe(ctx, w)
     else:
         check_bad_positions(ctx, w)
